@@ -171,7 +171,11 @@ PROPERTIES = {
                 "10% of the pairs name another denomination's Hyperlane token with that denomination deposited (it must not pay for the transfer). "
                 "Non-trivial = the transferred denom had a pre-existing balance and the base run succeeded; distinct by (deposits, transfer).",
         "assumptions": COMMON_ASSUMPTIONS,
-        "tests": [{"test": "TestC11Pairs", "quick": 2000, "thorough": 800000}],
+        "tests": [
+            {"test": "TestC11Pairs", "quick": 2000, "thorough": 800000},
+            {"test": "TestC11HookFees", "quick": 600, "thorough": 160000},
+            {"test": "TestC11KnownHookFee", "kind": "plain", "quick": 1, "thorough": 1},
+        ],
     },
     "C12": {
         "level": "exploration",
